@@ -248,13 +248,12 @@ func (w *Worker) ensureInit(pkg *ssa.Package) {
 	func() {
 		defer func() {
 			if r := recover(); r != nil {
-				switch r.(type) {
-				case pathEnd, goPanic:
-					// init could not be completed; globals it did not reach stay zero
-					w.initProblems = append(w.initProblems, fmt.Sprintf("%s: %v", path, r))
-				default:
-					panic(r)
+				// init could not be completed; globals it did not reach stay zero
+				msg := fmt.Sprintf("%s: %v", path, r)
+				if len(msg) > 300 {
+					msg = msg[:300]
 				}
+				w.initProblems = append(w.initProblems, msg)
 			}
 		}()
 		w.callSSA(nil, initFn, nil, nil)
@@ -294,7 +293,20 @@ func (fr *frame) prepareCall(call *ssa.CallCommon) (fn Value, args []Value) {
 	return
 }
 
-func (w *Worker) call(caller *frame, fn Value, args []Value) Value {
+func (w *Worker) call(caller *frame, fn Value, args []Value) (res Value) {
+	if w.tolerant > 0 {
+		// init mode: a callee the engine cannot execute yields Poison instead of aborting the initializer
+		depth := w.depth
+		defer func() {
+			if r := recover(); r != nil {
+				if gp, ok := r.(goPanic); ok {
+					panic(gp)
+				}
+				w.depth = depth
+				res = Poison{fmt.Sprint(r)}
+			}
+		}()
+	}
 	switch fn := fn.(type) {
 	case *ssa.Function:
 		if fn == nil {
@@ -319,17 +331,28 @@ func (w *Worker) callSSA(caller *frame, fn *ssa.Function, args []Value, env []Va
 	}
 	name := fn.String()
 	if fn.Parent() == nil {
+		if fn.Name() == "init" && fn.Pkg != nil && fn.Synthetic != "" && fn == fn.Pkg.Func("init") && caller != nil && caller.fn.Pkg != fn.Pkg {
+			// import-graph call from another package's initializer: initialise lazily under our policy
+			w.ensureInit(fn.Pkg)
+			return nil
+		}
 		if m, ok := models[name]; ok {
 			w.noteFn(name, "model")
 			fr := &frame{w: w, caller: caller, fn: fn}
+			w.concArgs(args)
 			return m(fr, args)
 		}
 		if o := fn.Origin(); o != nil {
 			if m, ok := models[o.String()]; ok {
 				w.noteFn(o.String(), "model")
 				fr := &frame{w: w, caller: caller, fn: fn}
+				w.concArgs(args)
 				return m(fr, args)
 			}
+		}
+		if fn.Pkg != nil && callDenied(fn.Pkg.Pkg.Path()) {
+			w.unsupported("call into " + name + " (runtime/reflection/OS: not interpreted)")
+			return Poison{"denied: " + name}
 		}
 		if fn.Blocks == nil {
 			// try building the package (dependencies are built lazily)
@@ -735,24 +758,62 @@ func (w *Worker) load(fr *frame, addr Value) Value {
 	panic(fmt.Sprintf("load through %T at %s", addr, fr.site()))
 }
 
-// selectCells builds ite(idx==0, c0, ite(idx==1, c1, ...)); cells must be scalars of one sort.
+// selectCells reads cells[idx] for a symbolic in-range idx as a binary multiplexer tree over the
+// index bits (depth log2 n; equal sub-ranges collapse, which keeps constant lookup tables small).
 func (w *Worker) selectCells(cells []Value, idx *Term) Value {
 	if len(cells) == 0 {
 		panic("selectCells: empty")
 	}
-	last, ok := cells[len(cells)-1].(*Term)
-	if !ok {
-		w.unsupported("symbolic index into non-scalar elements")
-		return Poison{"symidx"}
-	}
-	r := last
-	for i := len(cells) - 2; i >= 0; i-- {
-		c, ok := cells[i].(*Term)
+	ts := make([]*Term, len(cells))
+	for i, c := range cells {
+		t, ok := c.(*Term)
 		if !ok {
 			w.unsupported("symbolic index into non-scalar elements")
 			return Poison{"symidx"}
 		}
-		r = w.T.Ite(w.T.Eq(idx, w.T.Const(64, uint64(i))), c, r)
+		ts[i] = t
 	}
-	return r
+	bits := 0
+	for (1 << bits) < len(ts) {
+		bits++
+	}
+	return w.mux(ts, idx, bits, 0)
 }
+
+// mux selects ts[base + idx's low `bits` bits]; indices beyond len(ts) are don't-care (in-range by pc).
+func (w *Worker) mux(ts []*Term, idx *Term, bits int, base int) *Term {
+	if base >= len(ts) {
+		return ts[len(ts)-1]
+	}
+	if bits == 0 {
+		return ts[base]
+	}
+	// uniform range?
+	end := base + (1 << bits)
+	if end > len(ts) {
+		end = len(ts)
+	}
+	uniform := true
+	for i := base + 1; i < end; i++ {
+		if ts[i] != ts[base] {
+			uniform = false
+			break
+		}
+	}
+	if uniform {
+		return ts[base]
+	}
+	b := w.T.Eq(w.T.Extract(idx, bits-1, bits-1), w.T.Const(1, 1))
+	hi := w.mux(ts, idx, bits-1, base+(1<<(bits-1)))
+	lo := w.mux(ts, idx, bits-1, base)
+	return w.T.Ite(b, hi, lo)
+}
+
+var callDenyPkgs = map[string]bool{
+	"runtime": true, "internal/reflectlite": true, "reflect": true, "internal/abi": true, "syscall": true,
+	"internal/poll": true, "internal/godebug": true, "internal/bisect": true, "os": true, "internal/syscall/unix": true,
+	"runtime/debug": true, "internal/testlog": true, "os/exec": true, "net": true, "crypto/rand": true, "unsafe": true,
+	"internal/race": true, "internal/runtime/atomic": true, "internal/cpu": true,
+}
+
+func callDenied(path string) bool { return callDenyPkgs[path] }
